@@ -161,11 +161,44 @@ Section Geom.
     | _, _ => false
     end.
 
-  (* ------------------------------------------------------------------ *)
-  (* PackedState: check_intersection and score                           *)
-
   Fixpoint tails {A} (l : list A) : list (A * list A) :=
     match l with [] => [] | x :: r => (x, r) :: tails r end.
+
+  (* ------------------------------------------------------------------ *)
+  (* areas (Intersect::area)                                             *)
+
+  Definition dist_o (x y : T) : T := nsqrt (sq x + sq y).        (* nalgebra distance to the origin *)
+
+  (* LineShape::area: sum of 0.5 sin(2 pi/n) |start| |end| over the edges; angle_term = sin(2 pi/n) *)
+  Definition poly_area (angle_term : T) (l : list seg) : T :=
+    fold_left (fun acc p => acc + ((nhalf * angle_term) * dist_o (sx1 p) (sy1 p)) * dist_o (sx2 p) (sy2 p)) l n0.
+
+  Variable facos : T -> T.
+  Variable pi_ : T.
+
+  (* MolecularShape2::overlap_area(r, d) *)
+  Definition overlap_area (r d : T) : T :=
+    let ratio := nmax (- n1) (nmin n1 (d / r)) in
+    sq r * facos ratio - d * nsqrt (nmax n0 (sq r - sq d)).
+
+  (* MolecularShape2::circle_overlap *)
+  Definition circle_overlap (a b : disc) : T :=
+    let distance := nsqrt (norm2 (dx_ a - dx_ b) (dy_ a - dy_ b)) in
+    if distance <? dr a + dr b then
+      let d1 := ((sq distance + sq (dr a)) - sq (dr b)) / (n2 * distance) in
+      let d2 := ((sq distance + sq (dr b)) - sq (dr a)) / (n2 * distance) in
+      overlap_area (dr a) d1 + overlap_area (dr b) d2
+    else n0.
+
+  (* MolecularShape2::area: sum of the disc areas minus the pairwise lenses (tuple_combinations order) *)
+  Definition mol_area (l : list disc) : T :=
+    let total := fold_left (fun acc a => acc + pi_ * sq (dr a)) l n0 in
+    let naive := fold_left (fun acc xr => fold_left (fun acc2 b => acc2 + circle_overlap (fst xr) b) (snd xr) acc)
+                           (tails l) n0 in
+    total - naive.
+
+  (* ------------------------------------------------------------------ *)
+  (* PackedState: check_intersection and score                           *)
 
   (* the state as the checks see it: symmetry table, site, cell, shape; derived scalar inputs:
      enclosing radius, shape area and the shell count are VALUES computed by the caller's oracle *)
